@@ -106,6 +106,9 @@ class MetadataManager:
                             self.HINT_PATH, metadata_file.encode("utf-8"), etag=None
                         )
                     except CASConflictError as e:
+                        # Our v0 lost the race and was never committed; left
+                        # behind it ties with the winner's v0 in a recovery scan.
+                        self._discard_uncommitted_metadata(metadata_path)
                         raise TableExistsError(
                             f"Table at {self.table_path} was concurrently initialized"
                         ) from e
@@ -221,15 +224,26 @@ class MetadataManager:
                 # PHASE 3.5: Fencing - re-validate lock ownership immediately
                 # before the commit point. A holder whose lease was broken (e.g.
                 # after a long pause) must not flip the hint.
-                if not self.lock_provider.is_held():
-                    raise ConcurrentModificationException(
-                        "Lost distributed lock before commit point; retrying"
-                    )
+                try:
+                    if not self.lock_provider.is_held():
+                        raise ConcurrentModificationException(
+                            "Lost distributed lock before commit point; retrying"
+                        )
 
-                # PHASE 4: Atomically make new version visible.
-                # This is the commit point - after this, the new metadata is visible.
-                # If we crash before this, the new metadata file is orphaned but table is consistent.
-                self._write_hint_at_commit_point(metadata_file, hint_etag)
+                    # PHASE 4: Atomically make new version visible.
+                    # This is the commit point - after this, the new metadata is visible.
+                    # If we crash before this, the new metadata file is orphaned but table is consistent.
+                    self._write_hint_at_commit_point(metadata_file, hint_etag)
+                except AmbiguousCommitError:
+                    raise  # may be durable: the file must stay
+                except Exception:
+                    # Known-clean failure (lost lock, CAS conflict, or an atomic
+                    # local write that did not happen): the version just written
+                    # was never committed. Left behind, it carries the HIGHEST
+                    # version number, so a later recovery scan (hint lost) would
+                    # surface it as the table - a version nobody committed.
+                    self._discard_uncommitted_metadata(metadata_path)
+                    raise
 
                 # Success - update in-memory version
                 self.current_version = next_version
@@ -318,6 +332,13 @@ class MetadataManager:
             raise AmbiguousCommitError(
                 f"Version hint write failed ambiguously: {e}"
             ) from e
+
+    def _discard_uncommitted_metadata(self, metadata_path: str) -> None:
+        """Best-effort removal of a metadata file whose commit cleanly failed."""
+        try:
+            self.storage.delete_file(metadata_path)
+        except Exception as e:
+            logger.warning(f"Could not remove uncommitted metadata file {metadata_path}: {e}")
 
     def _release_lock_safely(self) -> None:
         """Release the distributed lock without ever raising."""
